@@ -259,7 +259,7 @@ pub fn oracle_602(a: &Args, out: &Args) -> Option<(&'static str, String)> {
         let (h, r) = (&out[10], &out[11]);
         let want = if a[0].get(4).copied().unwrap_or(0) == 1 { 0 } else { a[0][1] };
         if out[9] != vec![want] || *h != vec![1, a[0][2]] || *r != a[1] {
-            return Some(("C09+C08", format!("{} streams were waiting when the peer closed the session with code {}: an application draining them afterwards was handed {} and then got {:?} / reason {:?} (expected all of them, then the peer's code and reason)", a[0][1], a[0][2], out[9][0], h, r)));
+            return Some((if a[0].get(4).copied().unwrap_or(0) == 1 { "C07+C09" } else { "C09+C08" }, format!("{} streams were waiting when the peer closed the session with code {}: an application draining them afterwards was handed {} and then got {:?} / reason {:?} (expected all of them, then the peer's code and reason)", a[0][1], a[0][2], out[9][0], h, r)));
         }
     }
     let names = ["pending accept of the other kind", "pending receive_datagram", "later accept of the other kind", "later receive_datagram"];
@@ -267,7 +267,7 @@ pub fn oracle_602(a: &Args, out: &Args) -> Option<(&'static str, String)> {
         let (h, r) = (&out[1 + 2 * i], &out[2 + 2 * i]);
         if *h != vec![1, a[0][2]] || *r != a[1] {
             let what = if h.first() == Some(&TAG_PENDING) { "still hanging".to_string() } else { format!("{:?} / reason {:?}", h, r) };
-            return Some(("C09+C04", format!("the peer closed the session with code {} while {} {} streams were waiting unaccepted; the {} reported: {}", a[0][2], a[0][1], if a[0][0] == 0 { "unidirectional" } else { "bidirectional" }, name, what)));
+            return Some((if a[0].get(4).copied().unwrap_or(0) == 1 { "C07+C09+C04" } else { "C09+C04" }, format!("the peer closed the session with code {} while {} {} streams were waiting unaccepted; the {} reported: {}", a[0][2], a[0][1], if a[0][0] == 0 { "unidirectional" } else { "bidirectional" }, name, what)));
         }
     }
     None
